@@ -329,6 +329,13 @@ func oracleC04(r *Result) {
 		rep := t.Reply
 		switch t.Msg.Kind {
 		case "callback", "attrq":
+			if t.Msg.Kind == "callback" && rep.Kind == RKRedirect && strings.Contains(rep.Target, "Signature=") && len(storageFaults(t)) == 0 {
+				// the URL actually sent carries a Signature parameter but no SAMLResponse parameter a verifier could apply the
+				// HTTP-Redirect procedure to
+				r.violate("C04 redirect-signature", "C04:callback:redirect-signature-does-not-verify:no-samlresponse-parameter-in-the-url-sent",
+					"the query-string signature verifies per SAML bindings §3.4.4.1 over the URL actually sent", abbreviate(rep.Target, 300), t.ID)
+				continue
+			}
 			if !rep.IsSuccess() || len(rep.Msg.Assertions) == 0 {
 				continue
 			}
